@@ -23,7 +23,8 @@ def _solves(fn):
 def c06_cases(tier, seed):
     return [(k, n, order) for k in ("inline", "dynamic", "dynamic_bool", "dynamic_instances", "dynamic_list")
             for n in (1, 2, 3) for order in ("before", "after")] + [("dynamic_list_persistent", 1, "selector"),
-                                                                     ("dynamic_list_persistent", 1, "refill")]
+                                                                     ("dynamic_list_persistent", 1, "refill"), ("dynamic_foreach", 1, "growing"), ("dynamic_foreach", 1, "via_class"), ("dynamic_forward_ref", 1, "one"),
+                                                                     ("dynamic_forward_ref", 2, "two")]
 
 
 @contract("api_objects.inline_dynamic", ["C06"],
@@ -66,6 +67,78 @@ def c_inline_dynamic(c, kind, ninst, order):
         if order == "after":
             others = [Item(10 + i) for i in range(ninst - 1)]
         return o, others
+    if kind == "dynamic_foreach":
+        @vsc.randobj
+        class G(object):
+            def __init__(self):
+                self.l = vsc.rand_list_t(vsc.bit_t(8), sz=2)
+                self.on = vsc.bit_t(1)
+
+            @vsc.dynamic_constraint
+            def small(self):
+                with vsc.foreach(self.l) as it:
+                    it < 5
+
+            @vsc.constraint
+            def zz_maybe(self):                  # elaborated after `small` (blocks are elaborated in name order)
+                if order == "via_class":
+                    with vsc.if_then(self.on == 1):
+                        self.small()
+        g = G()
+        g.on = 1
+        try:
+            for call in range(6):
+                if order == "via_class":
+                    g.randomize()
+                else:
+                    with g.randomize_with() as it:
+                        it.small()
+                L = [int(x) for x in g.l]
+                c.check("C06: a dynamic constraint with a foreach body constrains every element the list has at the time of each call "
+                        "that references it (nothing of an earlier call's expansion is left behind)", all(x < 5 for x in L),
+                        info="call %d list=%r" % (call, L))
+                if call in (0, 2):
+                    g.l.append(0)
+                    g.l.append(0)
+            # a call that does not reference it is not restricted by the leftover of earlier calls
+            if order != "via_class":
+                ok, e = _solves(lambda: _rw(g, lambda it: it.l[0] > 100))
+                c.check("C06: unreferenced, the dynamic constraint restricts nothing", ok)
+        except Exception as e:
+            c.check("C06: a dynamic constraint with a foreach body raises nothing", False, info="%s: %s" % (type(e).__name__, e))
+        return
+    if kind == "dynamic_forward_ref":
+        # a class constraint that references a dynamic constraint of the same object whose name sorts AFTER its own
+        @vsc.randobj
+        class F(object):
+            def __init__(self, k):
+                self.a = vsc.rand_bit_t(8)
+                self.k = vsc.bit_t(8)
+                self.k = k
+                self.on = vsc.bit_t(1)
+
+            @vsc.constraint
+            def c_sel(self):
+                with vsc.if_then(self.on == 1):
+                    self.d_pin()
+
+            @vsc.dynamic_constraint
+            def d_pin(self):
+                self.a == self.k
+        try:
+            objs = [F(10 * (i + 1)) for i in range(n)]
+            for o in objs:
+                o.on = 1
+            for call in range(3):
+                for o in objs:
+                    o.randomize()
+                got = [(int(o.a), int(o.k)) for o in objs]
+                c.check("C06: a dynamic constraint referenced from a class constraint of the same object constrains that object's "
+                        "fields, whatever the order in which the blocks are elaborated", all(a == k for a, k in got), info=repr(got))
+        except Exception as e:
+            c.check("C06: a dynamic constraint referenced from a class constraint of the same object constrains that object's "
+                    "fields, whatever the order in which the blocks are elaborated", False, info="%s: %s" % (type(e).__name__, e))
+        return
     if kind == "dynamic_list_persistent":
         @vsc.randobj
         class Sel(object):
